@@ -38,8 +38,10 @@ class DocView(object):
                   if not v[2] and c != 'manualSort' and not c.startswith('gristHelper_'))
 
   def all_cols(self, tid):
+    # the 'group' column of a summary table is part of its definition, not a user column
     return sorted(c for c in self.tables[tid]["cols"]
-                  if c != 'manualSort' and not c.startswith('gristHelper_'))
+                  if c != 'manualSort' and not c.startswith('gristHelper_')
+                  and not (c == 'group' and self.tables[tid]["summary"]))
 
   def mentioned(self, name):
     """True if any formula text in the document mentions `name` as a word (clean-history rule)."""
@@ -103,7 +105,7 @@ class Gen(object):
     if base == 'ChoiceList':
       return r.choice([None, ['L', 'a'], ['L', 'a', 'b'], ['L', 'c'], ['L', 'b', 'c', 'a']])
     if base == 'Date':
-      return r.choice([None, 0, 86400, 1700000000, 1700086400])
+      return r.choice([None, 0, 86400, 1700006400, 1700092800])   # midnights: raw = normalised date
     if base == 'Ref':
       tgt = typ.split(':')[1] if ':' in typ else None
       rows = view.tables[tgt]["rows"] if view and tgt in view.tables else []
@@ -264,6 +266,8 @@ class Gen(object):
         return ['ModifyColumn', tid, c, {'type': r.choice(['Any', 'Int', 'Text', 'Numeric'])}]
       return ['ModifyColumn', tid, c, {'isFormula': False}]
     if k < 0.7:
+      if typ.split(':')[0] in ('ChoiceList', 'RefList') and _rec.summaryGroupByColumns:
+        return None    # known finding F-C12-list-values-in-any-groupby (scripted witness covers it)
       newt = r.choice(DATA_TYPES)
       others = view.user_tables()
       if others and r.random() < 0.25:
@@ -523,10 +527,26 @@ class Gen(object):
           break
       if ua:
         out.append(ua)
+    # Restructuring of summary tables / view sections is sent alone, the way the UI sends it: combined
+    # with other actions in one bundle the generator's view of the document is stale (the first action
+    # renames or removes the summary table the second one names), and the engine's undo of such bundles is
+    # a known finding (F-C01-undo-raises-summary-multi), explored by a dedicated profile only.
+    if self.profile != "summary-multi":
+      has_summary = any(v["summary"] for v in view.tables.values())
+      for ua in out:
+        if ua[0] in RESTRUCTURING and not (ua[0] == 'CreateViewSection' and ua[4] is None):
+          return [ua]
+        if has_summary and ua[0] in SCHEMA_UAS:
+          return [ua]       # schema changes reshape summary tables too
     if invalid_prob and r.random() < invalid_prob:
       out.append(self.ua_invalid(view))
     return out
 
+
+RESTRUCTURING = ('UpdateSummaryViewSection', 'DetachSummaryViewSection', 'CreateViewSection',
+                 'RemoveViewSection', 'RemoveView')
+
+SCHEMA_UAS = ('RemoveColumn', 'RenameColumn', 'ModifyColumn', 'RenameTable', 'RemoveTable')
 
 PROFILE_OPTS = {
   "lookups": {"sorted_lookups": True},
